@@ -158,6 +158,13 @@ def make_bank(rng, quick):
                              p_unary=rng.choice([0, 0.15, 0.3]),
                              moves=rng.choice([0, 0, 1, 2, 3, 6]),
                              sid=j + 1))
+        gen.spice(rng, bank[-1], ['cat-apostrophe', 'pos-apostrophe',
+                                  'cat-keyword', 'cat-punct-char',
+                                  'pos-punct-char', 'pos-decorated',
+                                  'cat-digit-first', 'cat-at-x',
+                                  'word-unicode', 'word-keyword',
+                                  'word-percent', 'word-unispace'],
+                  root_labels=['TOP', 'ROOT', 'S'])
         if rng.random() < 0.4:
             gen.uproot(rng, bank[-1], 0.3)
     return bank
